@@ -395,7 +395,9 @@ func judgeC12(c *Check, p *plan.Plan, pr *ProcResult) *Judged {
 		j.trouble(p, "harness: %s", pr.Outcome.Harness)
 		return j
 	case "watchdog":
-		j.trouble(p, "race worker hit the wall-clock cap")
+		// a heavy plan under -race on a loaded machine: not a verdict either way.
+		// Counted; it becomes trouble only if it is common (see runCheck).
+		c.count("race_plans_over_wall_cap", 1)
 		return j
 	case "ok":
 	default:
